@@ -27,6 +27,10 @@ type ssOp struct {
 
 type ssCase struct {
 	Ops []ssOp `json:"ops"`
+	// Every > 1: the per-step invariant (every pool set equals its model) is evaluated only after every Every-th
+	// operation and at the end. Observing (Sorted, String ...) after each single mutation would reset anything a set
+	// memoises between observations, so sparse observation is a domain of its own.
+	Every int `json:"every,omitempty"`
 }
 
 const ssSlots = 4 // index ssSlots denotes the nil set
@@ -38,6 +42,9 @@ var ssKinds = []string{"new", "insert", "delete", "union", "intersect", "differe
 func ssGen(t *rapid.T) interface{} {
 	n := lib.IntN(t, 1, 40, "nops")
 	c := &ssCase{}
+	if lib.IntN(t, 0, 2, "sparse") == 0 {
+		c.Every = lib.IntN(t, 2, 7, "every")
+	}
 	for i := 0; i < n; i++ {
 		op := ssOp{Kind: lib.PickStr(t, ssKinds, "kind"), Dst: lib.IntN(t, 0, ssSlots-1, "dst"),
 			A: lib.IntN(t, 0, ssSlots, "a"), B: lib.IntN(t, 0, ssSlots, "b")}
@@ -292,6 +299,9 @@ func ssCheck(ci interface{}) lib.Outcome {
 			return lib.Outcome{Skip: "malformed"}
 		}
 		// invariant: every pool set equals its model (detects operand mutation and late aliasing)
+		if c.Every > 1 && (i+1)%c.Every != 0 && i != len(c.Ops)-1 {
+			continue
+		}
 		for k := 0; k < ssSlots; k++ {
 			if msg := ssAgree(pool[k], model[k]); msg != "" {
 				return fail(i, op, fmt.Sprintf("afterwards slot %d: %s", k, msg))
@@ -311,6 +321,9 @@ func ssCheck(ci interface{}) lib.Outcome {
 	}
 	if binops > 0 {
 		o.Classes = append(o.Classes, "has-binary-op")
+	}
+	if c.Every > 1 {
+		o.Classes = append(o.Classes, "sparse-observation")
 	}
 	return o
 }
